@@ -36,10 +36,28 @@ func runC07c(rc *RunCtx, race bool) {
 	stamp := 0
 	var log []*c07call
 	var hss []*c07hs
+	idFmt := []string{"key-%d", "%d", "user-1%d", "k%d"}[G.Draw(4)]
 	newHS := func(task int) int {
 		sz := []int{32, 24, 16}[G.Draw(3)]
-		hss = append(hss, &c07hs{id: fmt.Sprintf("key-%d", G.Draw(3)), salt: payload(G, sz)})
+		hss = append(hss, &c07hs{id: fmt.Sprintf(idFmt, G.Draw(3)), salt: payload(G, sz)})
 		return len(hss) - 1
+	}
+	// twin: the salt of handshake o under another access key: a different
+	// handshake, never seen before (unless that very pair exists already)
+	twin := func(o int) int {
+		first := G.Draw(2)
+	alt:
+		for d := 0; d < 2; d++ {
+			id := fmt.Sprintf(idFmt, (int(hss[o].id[len(hss[o].id)-1]-'0')+1+(first+d)%2)%3)
+			for _, x := range hss {
+				if x.id == id && string(x.salt) == string(hss[o].salt) {
+					continue alt
+				}
+			}
+			hss = append(hss, &c07hs{id: id, salt: hss[o].salt})
+			return len(hss) - 1
+		}
+		return -1
 	}
 	add := func(task, h int) *c07call {
 		c := &c07call{task: task, hs: h, resize: -1, pos: len(log)}
@@ -113,7 +131,15 @@ func runC07c(rc *RunCtx, race bool) {
 			for k := 0; k < nOps; k++ {
 				var h int
 				fresh := len(mine) == 0 || G.Draw(3) != 0
-				if fresh {
+				isTwin := false
+				if fresh && len(hss) > 0 && G.Draw(4) == 0 {
+					if tw := twin(G.Draw(len(hss))); tw >= 0 {
+						h, isTwin = tw, true
+						rc.Probe("same_salt_under_another_key")
+					} else {
+						h = newHS(t)
+					}
+				} else if fresh {
 					h = newHS(t)
 				} else {
 					// re-present one from a distance biased to the boundary of the window
@@ -158,11 +184,29 @@ func runC07c(rc *RunCtx, race bool) {
 							rc.Failf("fresh-refused-with-cache-disabled", "a never-seen handshake was refused although the history size was 0 throughout")
 							continue
 						}
-						r2 := add(t, newHS(t))
-						r3 := add(t, newHS(t))
+						var r2, r3 *c07call
+						if isTwin {
+							// was it the shared salt? two more pairs of the same construction
+							for _, rp := range []**c07call{&r2, &r3} {
+								a := add(t, newHS(t))
+								mine = append(mine, a.hs)
+								last[a.hs] = a
+								tw := twin(a.hs)
+								if tw < 0 { // (other tasks took both twins meanwhile)
+									tw = newHS(t)
+									isTwin = false
+								}
+								*rp = add(t, tw)
+							}
+						} else {
+							r2 = add(t, newHS(t))
+							r3 = add(t, newHS(t))
+						}
 						mine = append(mine, r2.hs, r3.hs)
 						last[r2.hs], last[r3.hs] = r2, r3
-						if !r2.res && !r3.res {
+						if !r2.res && !r3.res && isTwin {
+							rc.Failf("fresh-handshakes-refused:same-salt-other-key", "three never-seen handshakes in a row, each carrying a salt that had been seen under ANOTHER access key, were refused (capacity >= %d): the history confuses handshakes of different keys; 32-bit checksum collisions do not explain it", m)
+						} else if !r2.res && !r3.res {
 							rc.Failf("fresh-handshakes-refused", "three never-seen handshakes in a row were refused (capacity >= %d): not explainable by 32-bit checksum collisions", m)
 						} else {
 							rc.Probe("single_fresh_refusal_excused_as_collision")
